@@ -3,6 +3,8 @@
 mod c01;
 mod c05;
 mod c07;
+mod c07_loop;
+mod gen_c07_msgs;
 mod c15;
 mod c16;
 mod c02;
